@@ -83,8 +83,10 @@ func newCheckCtx(prop string) *checkCtx {
 	return c
 }
 
-func (c *checkCtx) quick() bool    { return !c.thorough() }
-func (c *checkCtx) thorough() bool { return c.tier == "thorough" || (c.tier == "replay" && c.replayOf == "thorough") }
+func (c *checkCtx) quick() bool { return !c.thorough() }
+func (c *checkCtx) thorough() bool {
+	return c.tier == "thorough" || (c.tier == "replay" && c.replayOf == "thorough")
+}
 
 // pick returns q in the quick tier and t in the thorough tier.
 func (c *checkCtx) pick(q, t int) int {
@@ -185,7 +187,11 @@ func (c *checkCtx) violation(caseName string, replay interface{}, format string,
 	if n > 25 {
 		return // enough witnesses, keep counting only
 	}
-	path := filepath.Join(c.replayDir(), fmt.Sprintf("%s-%d-%s-%d.json", c.prop, c.seed, sanitizeName(caseName), rn))
+	suffix := ""
+	if c.tier == "replay" {
+		suffix = "-replayed" // never overwrite the file that is being replayed
+	}
+	path := filepath.Join(c.replayDir(), fmt.Sprintf("%s-%d-%s-%d%s.json", c.prop, c.seed, sanitizeName(caseName), rn, suffix))
 	_ = os.MkdirAll(filepath.Dir(path), 0o755)
 	doc := map[string]interface{}{
 		"property": c.prop, "tier": c.tier, "seed": c.seed, "case": caseName, "what": msg, "witness": replay,
